@@ -13,7 +13,7 @@ import (
 	"time"
 )
 
-// ---------------------------------------------------------------- script (mirrors harness/prog/interp.go)
+// ---------------------------------------------------------------- script (mirrors harness/prog/interp_testkit.go)
 
 type Script struct {
 	Trace   string            `json:"trace"`
